@@ -117,6 +117,8 @@ def run_numbering(item, rec):
                 i = symx.sym_int("i", 0)
                 ctx.assume(term(i) < term(nsl))
                 strides = __import__("cotengra.core", fromlist=["x"]).get_slice_strides(tree.sliced_inds)
+                if isinstance(strides, dict):  # internal helper: accept a per-index mapping as well as the positional list
+                    strides = [strides[ix] for ix in tree.sliced_inds]
                 key = tree.slice_key(i)
                 bads = [term(nsl) != term(true_n)]
                 if not order_ok or set(key) != set(sliced):
